@@ -119,10 +119,38 @@ def install_stubs(E, C, M, params, n, m, log, xr, nsample_mode, rec, xr_g=None):
             E.p.axiom(sym_bterm(E.all([self.rhoend <= self.rho, E.implies(rho0 > self.rhoend, self.rho < rho0), self.rho <= rho0])))
         E.patch_attr(Controller, 'reduce_rho', reduce_rho)
     orig_eval = Controller.evaluate_objective
+    # provenance (C01): points handed out by the model's absolute-coordinate accessors carry a tag that survives copies and views but not
+    # arithmetic; the binary64 kernel (C01) proves those outputs exactly inside the box, so every evaluated point must carry the tag
+    Model_ = type(M)
+    if E.symbolic:
+        def _tagged(a):
+            a.tag = 'abs-accessor'
+            return a
+        _has_tag = lambda a: getattr(a, 'tag', None) == 'abs-accessor'
+    else:
+        import numpy as _rnp
+
+        class _Tagged(_rnp.ndarray):
+            def __array_ufunc__(self, ufunc, method, *inputs, **kwargs):
+                inputs = tuple(_rnp.asarray(i) if isinstance(i, _Tagged) else i for i in inputs)
+                if kwargs.get('out') is not None:
+                    kwargs['out'] = tuple(_rnp.asarray(o) if isinstance(o, _Tagged) else o for o in kwargs['out'])
+                return getattr(ufunc, method)(*inputs, **kwargs)
+        _tagged = lambda a: _rnp.asarray(a).view(_Tagged)
+        _has_tag = lambda a: isinstance(a, _Tagged)
+    for nm_ in ('as_absolute_coordinates', 'xpt', 'xopt'):
+        def _mk(orig_, nm_=nm_):
+            def acc(self, *a, **k):
+                out_ = orig_(self, *a, **k)
+                is_abs = (nm_ == 'as_absolute_coordinates') or bool(k.get('abs_coordinates', a[-1] if (a and isinstance(a[-1], bool)) else False))
+                return _tagged(out_) if is_abs else out_
+            return acc
+        E.patch_attr(Model_, nm_, _mk(getattr(Model_, nm_)))
 
     def evaluate_objective(self, x, number_of_samples, params):
         before = len(log.calls)
         nf0, nx0 = self.nf, self.nx
+        rec.setdefault('prov', []).append(bool(_has_tag(x)))
         out = orig_eval(self, x, number_of_samples, params)
         rec['evals'].append({'x': x.copy(), 'requested': number_of_samples, 'first': before, 'count': len(log.calls) - before,
                              'nf0': nf0, 'nx0': nx0, 'nf1': self.nf, 'nx1': self.nx, 'last_cb': rec['cb'][-1] if rec['cb'] else None})
@@ -316,6 +344,8 @@ def check_step(E, outcome, exc, env, pre, C, M, params, log, rec, old_records, n
     xl, xu = M.xbase + M.sl, M.xbase + M.su
     for c in log.calls:
         E.prove(E.all([xl[i] <= c['x'][i] for i in range(n)] + [c['x'][i] <= xu[i] for i in range(n)]), 'C01:step:evaluated-point-in-box')
+    for ok_ in rec.get('prov', []):
+        E.prove(bool(ok_), 'C01:step:evaluated-point-is-an-output-of-the-model-absolute-coordinate-accessors')
     # ---------------- C19: randomness only when an option asks for it
     if rec['rng']:
         allowed = (params("growing.perturb_trust_region_step") or params("regression.momentum_extra_steps") or
@@ -507,6 +537,10 @@ def body_action(E, action, n, m, nsample_hi, preset='soft-restarts', num_pts=Non
             exit_info = C.geometry_step(knew, C.delta, want, params)
         elif action == 'add_new_direction':
             exit_info = C.add_new_direction_while_growing(want, params, min_num_steps=int(E.int('min_num_steps', 0, 1)))
+        elif action == 'momentum_step':
+            exit_info = C.move_furthest_points_momentum(E.vec('dstep', n), want, int(E.int('num_pts_to_move', 1, npt_so_far)), params)
+        elif action == 'extra_geom_steps':
+            exit_info = C.move_furthest_points(want, int(E.int('num_pts_to_move', 1, npt_so_far)), params)
         else:
             exit_info = C.soft_restart(want, nruns, params)
     except (Stop, core.PathAbort):
@@ -519,6 +553,11 @@ def body_action(E, action, n, m, nsample_hi, preset='soft-restarts', num_pts=Non
     E.prove(E.all([C.nf - nf0 == calls, C.nf <= C.maxfun]), 'C02:%s:counters-and-budget' % action)
     for ev in rec['evals']:
         E.prove(ev['requested'] == want, 'C02:%s:sample-count-is-what-was-asked-for' % action)
+    xl_, xu_ = M.xbase + M.sl, M.xbase + M.su
+    for c in log.calls:
+        E.prove(E.all([xl_[i] <= c['x'][i] for i in range(n)] + [c['x'][i] <= xu_[i] for i in range(n)]), 'C01:%s:evaluated-point-in-box' % action)
+    for ok_ in rec.get('prov', []):
+        E.prove(bool(ok_), 'C01:%s:evaluated-point-is-an-output-of-the-model-absolute-coordinate-accessors' % action)
     news = new_records(E, M, log, rec, m)
     allowed = old_records + news
     for k in range(M.npt()):
@@ -643,12 +682,18 @@ def action_harnesses(tier, seed, pid):
          ('add_new_direction', 2, 1, 2, G, 3, 2), ('add_new_direction', 2, 1, 1, G, 3, 3), ('soft_restart+npt', 1, 1, 1, S, 2, 2), ('soft_restart+npt', 1, 1, 2, S, 2, 2)]
     if pid in ('C18', 'C19'):
         combos = [c for c in combos if c[0] == 'soft_restart+npt']
+    else:
+        # the extra regression steps (non-default options): random 'momentum' directions and extra geometry steps
+        combos = combos + [('momentum_step', 1, 1, 2, 'regression-momentum', 3, 3), ('extra_geom_steps', 1, 1, 2, 'regression-geom', 3, 3)]
+        if tier != 'quick':
+            combos = combos + [('momentum_step', 2, 1, 2, 'regression-momentum', 4, 4)]
     for (action, n, m, hi, preset, num_pts, npt_so_far) in combos:
         vary_npt = action.endswith('+npt')
         hs.append(Harness("action[%s,n=%d,m=%d,npt=%d/%d,samples<=%d]" % (action, n, m, npt_so_far, num_pts, hi), 'dfverif.step', 'body_action',
                           params=dict(action=action.split('+')[0], n=n, m=m, nsample_hi=hi, preset=preset, num_pts=num_pts, npt_so_far=npt_so_far, vary_npt=vary_npt),
                           cfg=core.Cfg(qtimeout_ms=20000, uflin=True, max_depth=3000),
                           functions=['controller.Controller.geometry_step', 'controller.Controller.soft_restart', 'controller.Controller.add_new_direction_while_growing',
+                                     'controller.Controller.move_furthest_points', 'controller.Controller.move_furthest_points_momentum',
                                      'controller.Controller.evaluate_objective', 'controller.Controller.choose_point_to_replace',
                                      'model.Model.change_point', 'model.Model.add_new_sample', 'model.Model.save_point'],
                           bounds="one call of Controller.%s from any valid state; n=%d, m=%d, %d of %d points, up to %d samples per point, budget may end at any sample" % (
